@@ -226,6 +226,9 @@ func concreteInt(v *big.Int, k types.BasicKind) value {
 }
 
 func mkFloat(t, stale *smt.Term) value {
+	if smt.RealMode {
+		return symFloat{t, nil}
+	}
 	if t.Op == "fp" && (stale == nil || stale.IsConst()) {
 		if stale != nil && stale.IsTrue() {
 			return math.Float64frombits(staleNaNBits)
